@@ -140,6 +140,8 @@ def _(self, key, metadata):
     ensures(implies(old(ov_present(self, key)),
                     ov_has_data(self, key) == old(ov_has_data(self, key)) and implies(ov_has_data(self, key), ov_data(self, key) == old(ov_data(self, key)))),
             "bytes-of-the-updated-key-unchanged")
+    ensures(implies(not old(ov_present(self, key)), not ov_has_data(self, key)),
+            "a-metadata-write-never-brings-bytes-back:a-key-that-was-removed-or-never-existed-gets-metadata-only")
     ensures(implies(not has(anc(key), k0),
                     ov_entry_is(self, k0, old(ov_present(self, k0)), old(ov_isdir(self, k0)), old(ov_has_data(self, k0)),
                                 old(ov_data(self, k0)))), "other-keys-unchanged")
